@@ -35,9 +35,10 @@ def label(s):
         if 'at-unknown-node' in s and 'inactive-but-member' in s: return 'D10'
         if 'redelivery=PreviouslyFailed' in s: return 'D14'
         if 'proposal-dedup=failed' in s or 'proposal-dedup=epoch_invalidated' in s: return 'D2'
-        if 'snapshot-at-fork=no,on-branch-of=own-commit' in s: return 'D1'
+        if 'snapshot-at-fork=no,on-branch-of=own-commit' in s and (s.endswith(',own-commit-applied-by=merge') or s.endswith(',own-commit-applied-by=start-state')): return 'D1'
         if 'quiescent-behind' in s and 'off-spine-depth=0,needs=commit.other:dedup=failed:redelivery=Unprocessable' in s: return 'D2'
     if s.startswith('C02|') and ':h-tag=id-rotated-since|' in s and ('|lost|' in s or '|ends-created|' in s): return 'D14'
+    if s.startswith('C03|removed-user-still-in-roster-after-settling|') and 'snapshot-at-fork=no,on-branch-of=own-commit' in s and (s.endswith(',own-commit-applied-by=merge') or s.endswith(',own-commit-applied-by=start-state')): return 'D1'
     if s.startswith('C03|reactivated-after-eviction:pending|via=process_welcome(foreign-invitation)->Welcome'): return 'D11'
     if s.startswith('C03|reactivated-after-eviction:active|via=accept_welcome(own-invitation)->Ok'): return 'D16'
     if s.startswith('C04|message-of-another-author-altered|replay=commit|same-h,smaller-id|'): return 'D18'
